@@ -18,8 +18,8 @@ RULE = ("FullFactor(+-centre) d=1..6 and FullFactorLevels with drawn unique leve
         "the full factorial, complementary designs pairwise disjoint with union == full factorial. Non-trivial = >= 3 "
         "factors, or a PB design built by Kronecker doubling, or unequal level counts in GSD")
 ASSUMPTIONS = ["level lists hold distinct values", "bounds lb<ub with width >= 1e-9*|bound| (levels distinguishable)",
-               "GSD domain: k>=2 factors, every level count >= reduction >= 2 (where construction is documented to "
-               "succeed); other inputs may raise ValueError/AssertionError"]
+               "GSD domain: k>=2 factors, level counts >= 2, reduction >= 2; a ValueError is accepted only when some level count is "
+               "below the reduction"]
 
 
 def _tol(lb, ub):
@@ -214,11 +214,13 @@ def check_bb(case):
 @st.composite
 def gsd_cases(draw):
     k = draw(st.integers(2, 5))
-    r = draw(st.integers(2, 4))
+    r = draw(st.integers(2, 5))
     levels = []
     prod = 1
     for _ in range(k):
-        L = draw(st.integers(r, max(r, min(7, max(r, 4000 // prod)))))
+        # level counts below the reduction are allowed too (construction succeeds for almost all of them on the
+        # pinned tree: 1839 of 1844 probed configurations; the rest raise ValueError, which is the documented rejection)
+        L = draw(st.integers(2, max(2, min(7, max(2, 4000 // prod)))))
         prod *= L
         levels.append(L)
     values = [[float(10 * i + j) for j in range(L)] for i, L in enumerate(levels)]
@@ -239,8 +241,8 @@ def check_gsd(case):
             g.init([list(v) for v in case["values"]], r)
             gen_rows = [tuple(float(x) for x in row) for row in g.generate()]
     except (ValueError, AssertionError) as e:
-        if case["levels"] == [3, 4] and r == 2:
-            raise Violation("gsd", "documented-example-rejected", "gsd([3,4],2) raised %r" % (e,))
+        if (case["levels"] == [3, 4] and r == 2) or all(L >= r for L in levels):
+            raise Violation("gsd", "constructible-design-rejected", "gsd(%r, %d) raised %r" % (levels, r, e))
         return {"nt": False, "classes": ["rejected"]}
     if len(designs) != r:
         raise Violation("gsd", "complementary-count", "levels %r r=%d: %d designs returned" % (levels, r, len(designs)))
@@ -269,7 +271,9 @@ def check_gsd(case):
     if set(gen_rows) != want or len(gen_rows) != len(want):
         raise Violation("gsd", "generator-mapping", "GSDGenerator rows do not map the design onto the supplied values")
     uneq = len(set(levels)) > 1
-    return {"nt": len(levels) >= 3 or uneq, "classes": ["k%d" % len(levels), "r%d" % r, "unequal" if uneq else "equal"]}
+    below = any(L < r for L in levels)
+    return {"nt": len(levels) >= 3 or uneq, "classes": ["k%d" % len(levels), "r%d" % r, "unequal" if uneq else "equal",
+                                                        "levels<r" if below else "levels>=r"]}
 
 
 CLAUSES = [
